@@ -388,7 +388,7 @@ pub fn prop() -> Prop<Case> {
     Prop {
         id: "C09",
         level: "fault_enumeration",
-        rule: "two generated case kinds. Healthy: history as C02 (interruptions are stop-the-world before a storage operation; steps during which a band without header exists are skipped) with validate(full) and validate(quick) after every archive operation: must return Ok with no monitor error and no ERROR event. Damaged: archive from a history of <=5 ops; inner domain enumerated: every file of the archive (header, heads, tails, hunks, blocks; the quick tier takes at most 80 evenly spaced files of an archive) x {delete, truncate to 0, truncate to half, overwrite with garbage of equal length} + generated bit flips for blocks, BANDTAIL deletion excluded; for each, every complete version is restored and compared with its model snapshot and every interrupted version that has a head is restored and compared with its own pre-damage restore (deleting the last hunk of an interrupted version is exempt: indistinguishable from an earlier interruption), and if any no longer restores as before full validate must report (Err, monitor error or ERROR event), and for deletions quick validate too. Non-trivial inner = damage that changes some restore (no-effect damages are counted separately in the histogram); non-trivial healthy case = >=2 versions with an interrupted band or a delete/gc; inner values distinct by construction. Fixed scale probes per run: validate silent on a healthy 10 015-hunk version, on multi-MiB blocks and on a version whose single index hunk exceeds 32 MiB; hunks 9 999, 10 000 and the last deleted must each be reported by full and quick validate; and in an archive of 13 000 blocks four garbled blocks (first, one third, half, last in name order) must each be reported by full validate",
+        rule: "two generated case kinds. Healthy: history as C02 (interruptions are stop-the-world before a storage operation; steps during which a band without header exists are skipped) with validate(full) and validate(quick) after every archive operation: must return Ok with no monitor error and no ERROR event. Damaged: archive from a history of <=5 ops; inner domain enumerated: every file of the archive (header, heads, tails, hunks, blocks; the quick tier takes at most 80 evenly spaced files of an archive) x {delete, truncate to 0, truncate to half, overwrite with garbage of equal length} + generated bit flips for blocks, BANDTAIL deletion excluded; for each, every complete version is restored and compared with its model snapshot and every interrupted version that has a head is restored and compared with its own pre-damage restore (deleting the last hunk of an interrupted version is exempt: indistinguishable from an earlier interruption), and if any no longer restores as before full validate must report (Err, monitor error or ERROR event), and for deletions quick validate too. Non-trivial inner = damage that changes some restore (no-effect damages are counted separately in the histogram); non-trivial healthy case = >=2 versions with an interrupted band or a delete/gc; inner values distinct by construction. Fixed scale probes per run: validate silent on a healthy 10 015-hunk version, on multi-MiB blocks and on a version whose single index hunk exceeds 32 MiB; hunks 9 999, 10 000 and the last deleted must each be reported by full and quick validate; and in an archive of 13 000 blocks four garbled blocks (first, one third, half, last in name order) must each be reported by full validate; since round 6 a quarter of the damaged archives also hold a collector's lock file (GC_LOCK)",
         assumptions: &[
             "'reported' is lenient: Err, a Monitor error, or a tracing event at ERROR level",
             "zero-length leftovers of killed writes are not part of the healthy side",
